@@ -126,6 +126,13 @@ def _apply_holder_op(h, l):
             h.base = PduFactory.from_raw(bytes(data))
         elif style == 3:
             h.pdu = PduFactory.from_raw_to_holder(bytes(data)).pdu
+        elif style == 4:
+            # the PDU held so far is released BEFORE the next one is created (its address is free for the new one);
+            # octets the factory refuses leave the holder as it was, so they are tried first
+            PduFactory.from_raw(bytes(data))
+            h.pdu = None
+            gc.collect(0)
+            h.pdu = PduFactory.from_raw(bytes(data))
         else:
             h.pdu = PduFactory.from_raw(bytes(data))
         return []
@@ -169,6 +176,8 @@ def _explore_identity(a):
              lambda: AckPdu(conf, DirectiveType.EOF_PDU, ConditionCode.NO_ERROR, TransactionStatus.ACTIVE),
              lambda: MetadataPdu(conf, mdp), lambda: NakPdu(conf, 0, 10), lambda: PromptPdu(conf, ResponseRequired.KEEP_ALIVE),
              lambda: KeepAlivePdu(conf, 77)]
+    raws = [bytes(b().pack()) for b in build]      # the packed form of each kind, for the factory
+    junk = raws[7]
     h = PduHolder(None)
     pdu = got = None
     prev = -1
@@ -190,7 +199,12 @@ def _explore_identity(a):
         else:
             gc.collect(0)
         # ... then the next PDU, of another kind, is created and stored
-        pdu = build[k]()
+        if (x >> 10) & 3 == 3:
+            for _ in range((x >> 12) % 4):            # other traffic is decoded and dropped in between
+                PduFactory.from_raw(junk)
+            pdu = PduFactory.from_raw(raws[k])
+        else:
+            pdu = build[k]()
         if style == 3:
             h = PduHolder(pdu)
         elif style == 2:
@@ -443,7 +457,7 @@ def streams(tier, rng):
         for _ in range(rng.randrange(1, 11)):
             c = rng.choice([1, 1, 1, 2, 3, 4, 5, 6, 6, 7])
             if c == 1 and used and rng.random() < 0.35:
-                ops.append([1, rng.randrange(4)] + rng.choice(used))      # the same octets arrive again
+                ops.append([1, rng.randrange(5)] + rng.choice(used))      # the same octets arrive again
             elif c == 1:
                 k = rng.choice([0, 0, rng.randrange(8)])
                 b = _valid_packed(rng, k)[1]
@@ -452,7 +466,7 @@ def streams(tier, rng):
                 if r < 0.1: b = b[:rng.randrange(len(b))]
                 elif r < 0.15: b = list(b); b[0] ^= 0x40
                 elif r < 0.2 and k: hl = h5._declared(b); b = list(b); b[hl] = 10
-                ops.append([1, rng.randrange(4)] + b)
+                ops.append([1, rng.randrange(5)] + b)
             elif c == 6:
                 ops.append([6, rng.randrange(8)])
             elif c == 7:
@@ -490,7 +504,7 @@ def streams(tier, rng):
                 cases.append((1500, [b2 + [rng.randrange(256) for _ in range(rng.choice([1, 2, 9]))]]))
                 other = _valid_packed(rng, rng.randrange(8))[1]
                 cases.append((1520, [b2, other, [rng.randrange(2)]])); cases.append((1520, [other, b2, [rng.randrange(2)]]))
-                cases.append((1521, [[1, rng.randrange(4)] + b2, [3], [4], [5], [6, k], [1, rng.randrange(4)] + other, [1, rng.randrange(4)] + b2, [5], [5]]))
+                cases.append((1521, [[1, rng.randrange(5)] + b2, [3], [4], [5], [6, k], [1, rng.randrange(5)] + other, [1, rng.randrange(5)] + b2, [5], [5]]))
                 q = list(b2); q[-1] ^= 1 << rng.randrange(8)          # ... and the same PDU with a wrong trailer
                 cases.append((1500, [q]))
     yield "crc_trailer_special_values", "exact", cases
